@@ -259,7 +259,6 @@ impl Check for C11 {
     fn required_counters(&self, _tier: Tier) -> Vec<String> {
         vec![
             "enumerated_selector_sums".into(),
-            "own_p1_offset_as_selected".into(),
             "p2_signatures_valid".into(),
             "p2_echoes_exact".into(),
             "own_p1_with_library_rng".into(),
@@ -268,6 +267,10 @@ impl Check for C11 {
             "received_p1_from_Server_At8".into(),
             "received_p1_from_Server_At772".into(),
         ]
+    }
+    fn soft_counters(&self, _tier: Tier) -> Vec<String> {
+        // depends on how the library calls the fill hook (today: once for bytes 8..1532 of packet 1)
+        vec!["own_p1_offset_as_selected".into()]
     }
     fn exhaustive_part(&self, _tier: Tier) -> Option<String> {
         Some("all selector sums 0..=1020 (hence all 728 offsets) x both roles x both schemes, per filling".to_string())
